@@ -123,6 +123,7 @@ def _worker(args):
     check_id, idx, shard, tier = args
     check = get_check(check_id)
     res = Res(check_id)
+    t_start = time.time()
     try:
         check.run_shard(shard, tier, res)
     except Exception as e:  # harness error: report as broken, never as violation
@@ -131,6 +132,8 @@ def _worker(args):
         res.caps.append('harness error in shard %d: %s' % (idx, traceback.format_exc()[-1500:]))
     d = res.pack()
     d['idx'] = idx
+    d['wall'] = round(time.time() - t_start, 2)
+    d['shard'] = repr(shard)[:160]
     return d
 
 
@@ -164,6 +167,7 @@ def run(check_id, tier, seed):
     caps = []
     samples = {}
     digests = {}
+    slow = []
     stopped = False
 
     nproc = min(NPROC, max(1, len(tasks)))
@@ -192,6 +196,7 @@ def run(check_id, tier, seed):
             if d['samples']:
                 samples[d['idx']] = d['samples']
             digests[d['idx']] = d['digest']
+            slow.append((d['wall'], d['idx'], d['shard']))
             if agg['nviol'] >= STOP_AFTER:
                 stopped = True
                 break
@@ -267,6 +272,8 @@ def run(check_id, tier, seed):
         'searches_capped': flags.get('no_fixpoint', 0),
         'known_finding_cases': dict(known),
         'result_digest': hashlib.sha1(repr(sorted(digests.items())).encode()).hexdigest(),
+        'slowest_shards': [{'wall_s': w, 'shard': sh} for w, i, sh in sorted(slow, reverse=True)[:5]],
+        'shard_cpu_s': round(sum(w for w, _, _ in slow), 1),
     }
     if level == 'model_checking':
         cov['states'] = agg['states']
